@@ -296,7 +296,47 @@ def c_order(ctx, args):
     return None
 
 
-CHECKS = {'mcirc': c_mcirc, 'postselect': c_postselect, 'backward': c_backward, 'order': c_order}
+def c_layer(ctx, args):
+    """a measurement layer on its own: forward is the direct measurement of Z on its qubits in the order given (same outcomes, log2prob, state and rank as state.measure on a
+    copy with the same random stream); backward without a record replays the layer's OWN record and leaves the (pure) state as it is; a record of the wrong length or a
+    missing record is an error"""
+    N, qs, t, seed = args
+    from pyclifford import circuit as CI
+    ly = CI.MeasureLayer(*qs, N=N)
+    s1, s2 = NP.STATE(t), NP.STATE(t)
+    NP.seed_numba(seed)
+    ly.forward(s1)
+    NP.seed_numba(seed)
+    zs = [[[1 if j == 2 * q + 1 else 0 for j in range(2 * N)], 0] for q in qs]
+    outs, lp = s2.measure(NP.PL(zs))
+    got = [[int(v) for v in ly.result], float(ly.log2prob), NP.oST(s1)]
+    want = [[int((-1) ** int(o)) for o in outs], float(lp), NP.oST(s2)]
+    if got != want:
+        return {'kind': 'oracle', 'where': 'np:MeasureLayer.forward vs state.measure of Z on the same qubits', 'observed': got, 'expected': want, 'tags': ['layer']}
+    if t[1] == 0:
+        before = NP.oST(s1)
+        try:
+            ly.backward(s1)
+        except Exception as e:
+            return {'kind': 'oracle', 'where': 'np:MeasureLayer.backward rejected its own record (%s)' % type(e).__name__, 'observed': str(e)[:100], 'expected': 'accepted', 'tags': ['layer']}
+        if not S.same_state(NP.oST(s1), before):
+            return {'kind': 'oracle', 'where': 'np:MeasureLayer.backward with its own record changed the state', 'observed': NP.oST(s1), 'expected': before, 'tags': ['layer']}
+        try:
+            ly.backward(NP.STATE(before), measure_result=[1] * (len(qs) + 1))
+            return {'kind': 'oracle', 'where': 'np:MeasureLayer.backward accepted a record of the wrong length', 'observed': 'no error', 'expected': 'ValueError', 'tags': ['layer']}
+        except ValueError:
+            pass
+        fresh = CI.MeasureLayer(*qs, N=N)
+        if getattr(fresh, 'result', None) is None:
+            try:
+                fresh.backward(NP.STATE(before))
+                return {'kind': 'oracle', 'where': 'np:MeasureLayer.backward without any record', 'observed': 'no error', 'expected': 'ValueError', 'tags': ['layer']}
+            except ValueError:
+                pass
+    return None
+
+
+CHECKS = {'layer': c_layer, 'mcirc': c_mcirc, 'postselect': c_postselect, 'backward': c_backward, 'order': c_order}
 
 
 def rmprog(rng, model, N, L):
@@ -335,6 +375,7 @@ def run(ctx):
         if it % 2 == 0:
             do(ctx, 'mcirc', [N, prog, t, seed, rng.choice(['end', 'early', 'both', 'after_first'])], nontrivial=('ml', it))
         do(ctx, 'order', [N, prog])
+        do(ctx, 'layer', [N, rng.sample(range(N), rng.randint(1, N)), gen.rtableau(rng, ctx.model, N, r=0 if rng.random() < 0.6 else None), rng.randrange(10 ** 6)], nontrivial=('ly', it))
         tp = gen.rtableau(rng, ctx.model, N, r=0)
         do(ctx, 'backward', [N, prog, tp, seed, rng.choice(['recorded', 'supplied', 'flipped', 'flipped', 'wrong_length', 'rerun', 'rerun'])], nontrivial=('b', it))
         do(ctx, 'postselect', [gen.rtableau(rng, ctx.model, N, r=0 if rng.random() < 0.85 else None), gen.rpauli(rng, N, herm=True, nonzero=True), rng.randint(0, 1)], nontrivial=('p', it))
